@@ -151,6 +151,19 @@ CHECKS = {
         note='Trusted: z3; the lxml stub (serialise . parse = identity on structure/attributes/text, \'\' -> None, default namespace): '
              'XML escaping and Unicode legality are inside lxml and outside the claim; witness replay uses the real lxml.',
         design='4/C01'),
+    'C17': dict(
+        text='Bounded symbolic execution of the real parse_folder.main(), load_already_processed_files(_in_directory) and '
+             'Computator.__call__ over a modelled file system: every output write is an event and run r is killed when its event '
+             'counter reaches a symbolic crash index c_r (the solver decides the feasible positions: before the first, between '
+             'any two, after the last write); up to three crashes are followed by an uninterrupted run, all with skip-processed.  '
+             'On every path: every requested output of every page exists at the end and carries the token (page id, kind, image it '
+             'was computed from) of an uninterrupted run; a page whose requested outputs were all present at the start of a run is '
+             'not processed in that run; no run ends with an exception.  Configurations: subsets of {xml, render, logits, alto, '
+             'lines}, id sets {p1,p2}, {a.b,a}, {x.xml.y,x}.  Bound: 1 crash, 10 kind subsets (quick); 3 crashes, all 31 subsets, '
+             'three pages, more id sets (thorough).',
+        note='Trusted: z3 (integer arithmetic only); writes are atomic and ordered; the page parser is a deterministic stand-in (C08); '
+             'replay runs the real main() on a real temporary directory with real os / re.  Known finding: only line crops requested.',
+        design='4/C17'),
 }
 
 NOT_APPLICABLE = {
